@@ -15,6 +15,14 @@ type Built struct {
 	Err    error
 	First  gopacket.LayerType
 	Desc   []string // what was generated (for class histograms): "vlan", "ipv4-options", "tcp-mptcp", ...
+	t      *rapid.T
+}
+
+func genPort(t *rapid.T, rt bool, l string) uint16 {
+	if rt {
+		return uint16(rapid.IntRange(50000, 60000).Draw(t, l)) // no application decoder is registered up there
+	}
+	return rapid.Uint16().Draw(t, l)
 }
 
 func genMAC(t *rapid.T, l string) net.HardwareAddr {
@@ -106,8 +114,16 @@ func Payload(t *rapid.T, maxLen int) []byte {
 var ser = gopacket.SerializeOptions{FixLengths: true, ComputeChecksums: true}
 
 // Stack draws Ethernet [Dot1Q x0..2] (IPv4 | IPv6 [+ext]) (TCP | UDP | ICMPv4 | ICMPv6 | GRE) [DNS | payload].
-func Stack(t *rapid.T) *Built {
-	b := &Built{First: layers.LayerTypeEthernet}
+func Stack(t *rapid.T) *Built { return stack(t, false) }
+
+// StackRT draws the same family of stacks restricted to values a serialize->decode round trip must preserve:
+// option lists padded to 32 bits with NOPs (trailing zero padding decodes as an End-of-Options entry), ports
+// without a registered application decoder, echo messages with their echo header, optional fields zero
+// when their presence flag is off.
+func StackRT(t *rapid.T) *Built { return stack(t, true) }
+
+func stack(t *rapid.T, rt bool) *Built {
+	b := &Built{First: layers.LayerTypeEthernet, t: t}
 	eth := &layers.Ethernet{SrcMAC: genMAC(t, "smac"), DstMAC: genMAC(t, "dmac")}
 	b.Layers = append(b.Layers, eth)
 	nv := rapid.SampledFrom([]int{0, 0, 0, 1, 2}).Draw(t, "nvlan")
@@ -152,6 +168,19 @@ func Stack(t *rapid.T) *Built {
 		b.Layers = append(b.Layers, ip)
 		nl = ip
 		b.Desc = append(b.Desc, "ipv6")
+		if rapid.IntRange(0, 3).Draw(t, "v6dest") == 0 {
+			// destination options extension header with 0..3 options of every length 0..6
+			d := &layers.IPv6Destination{}
+			d.NextHeader = proto
+			ip.NextHeader = layers.IPProtocolIPv6Destination
+			n := rapid.IntRange(0, 3).Draw(t, "ndestopts")
+			for i := 0; i < n; i++ {
+				od := rapid.SliceOfN(rapid.Byte(), 0, 6).Draw(t, "destoptdata")
+				d.Options = append(d.Options, &layers.IPv6DestinationOption{OptionType: rapid.SampledFrom([]uint8{0x1e, 0x3e, 1}).Draw(t, "destoptt"), OptionLength: uint8(len(od)), OptionData: od})
+			}
+			b.Layers = append(b.Layers, d)
+			b.Desc = append(b.Desc, "ipv6-destination")
+		}
 	} else {
 		setType(layers.EthernetTypeIPv4)
 		if l4 == "icmp" {
@@ -159,6 +188,15 @@ func Stack(t *rapid.T) *Built {
 		}
 		ip := &layers.IPv4{Version: 4, TOS: rapid.Byte().Draw(t, "tos"), Id: rapid.Uint16().Draw(t, "ipid"), TTL: rapid.Byte().Draw(t, "ttl"),
 			SrcIP: genIP(t, 4, "src4"), DstIP: genIP(t, 4, "dst4"), Protocol: proto, Options: IPv4Options(t)}
+		if rt {
+			n := 0
+			for _, o := range ip.Options {
+				n += int(o.OptionLength)
+			}
+			for ; n%4 != 0; n++ {
+				ip.Options = append(ip.Options, layers.IPv4Option{OptionType: 1, OptionLength: 1})
+			}
+		}
 		if rapid.IntRange(0, 3).Draw(t, "df") == 0 {
 			ip.Flags = layers.IPv4DontFragment
 		}
@@ -171,9 +209,18 @@ func Stack(t *rapid.T) *Built {
 	}
 	switch l4 {
 	case "tcp":
-		tc := &layers.TCP{SrcPort: layers.TCPPort(rapid.Uint16().Draw(t, "sport")), DstPort: layers.TCPPort(rapid.Uint16().Draw(t, "dport")),
+		tc := &layers.TCP{SrcPort: layers.TCPPort(genPort(t, rt, "sport")), DstPort: layers.TCPPort(genPort(t, rt, "dport")),
 			Seq: rapid.Uint32().Draw(t, "seq"), Ack: rapid.Uint32().Draw(t, "ack"), Window: rapid.Uint16().Draw(t, "win"), Urgent: rapid.Uint16().Draw(t, "urg"),
 			SYN: rapid.Bool().Draw(t, "syn"), ACK: rapid.Bool().Draw(t, "ackf"), PSH: rapid.Bool().Draw(t, "psh"), FIN: rapid.Bool().Draw(t, "fin"), Options: TCPOptions(t)}
+		if rt {
+			n := 0
+			for _, o := range tc.Options {
+				n += int(o.OptionLength)
+			}
+			for ; n%4 != 0; n++ {
+				tc.Options = append(tc.Options, layers.TCPOption{OptionType: 1, OptionLength: 1})
+			}
+		}
 		tc.SetNetworkLayerForChecksum(nl)
 		if len(tc.Options) > 0 {
 			b.Desc = append(b.Desc, "tcp-options")
@@ -181,7 +228,7 @@ func Stack(t *rapid.T) *Built {
 		b.Layers = append(b.Layers, tc)
 		b.Desc = append(b.Desc, "tcp")
 	case "udp":
-		u := &layers.UDP{SrcPort: layers.UDPPort(rapid.Uint16().Draw(t, "sport")), DstPort: layers.UDPPort(rapid.Uint16().Draw(t, "dport"))}
+		u := &layers.UDP{SrcPort: layers.UDPPort(genPort(t, rt, "sport")), DstPort: layers.UDPPort(genPort(t, rt, "dport"))}
 		if rapid.IntRange(0, 3).Draw(t, "dns") == 0 {
 			u.DstPort = 53
 		}
@@ -197,6 +244,10 @@ func Stack(t *rapid.T) *Built {
 			if rapid.Bool().Draw(t, "dnsans") {
 				d.QR = true
 				d.Answers = append(d.Answers, layers.DNSResourceRecord{Name: []byte("example.com"), Type: layers.DNSTypeA, Class: layers.DNSClassIN, TTL: rapid.Uint32().Draw(t, "dnsttl"), IP: genIP(t, 4, "dnsip")})
+				if rt {
+					a := &d.Answers[len(d.Answers)-1]
+					a.Data, a.DataLength = append([]byte(nil), a.IP...), 4 // what decoding reports alongside IP
+				}
 			}
 			b.Layers = append(b.Layers, d)
 			b.Desc = append(b.Desc, "dns")
@@ -204,10 +255,19 @@ func Stack(t *rapid.T) *Built {
 		}
 	case "icmp":
 		if v6 {
-			ic := &layers.ICMPv6{TypeCode: layers.CreateICMPv6TypeCode(rapid.SampledFrom([]uint8{128, 129, 1, 3}).Draw(t, "i6t"), 0)}
+			ic := &layers.ICMPv6{TypeCode: layers.CreateICMPv6TypeCode(rapid.SampledFrom([]uint8{128, 129, 1, 3, 135, 135, 136}).Draw(t, "i6t"), 0)}
+			if rt && (ic.TypeCode.Type() == 1 || ic.TypeCode.Type() == 3) {
+				ic.TypeCode = layers.CreateICMPv6TypeCode(128, 0)
+			}
 			ic.SetNetworkLayerForChecksum(nl)
 			b.Layers = append(b.Layers, ic)
 			b.Desc = append(b.Desc, "icmpv6")
+			if t := ic.TypeCode.Type(); t == 135 || t == 136 {
+				return b.ndp(t2(t), ic)
+			}
+			if ty := ic.TypeCode.Type(); rt && (ty == 128 || ty == 129) {
+				b.Layers = append(b.Layers, &layers.ICMPv6Echo{Identifier: rapid.Uint16().Draw(t, "echoid"), SeqNumber: rapid.Uint16().Draw(t, "echoseq")})
+			}
 		} else {
 			b.Layers = append(b.Layers, &layers.ICMPv4{TypeCode: layers.CreateICMPv4TypeCode(rapid.SampledFrom([]uint8{0, 8, 3, 11}).Draw(t, "i4t"), uint8(rapid.IntRange(0, 3).Draw(t, "i4c"))),
 				Id: rapid.Uint16().Draw(t, "icid"), Seq: rapid.Uint16().Draw(t, "icseq")})
@@ -218,9 +278,55 @@ func Stack(t *rapid.T) *Built {
 			Key: rapid.Uint32().Draw(t, "grekey"), Seq: rapid.Uint32().Draw(t, "greseq")}
 		b.Layers = append(b.Layers, g)
 		b.Desc = append(b.Desc, "gre")
+		if rt {
+			if !g.KeyPresent {
+				g.Key = 0
+			}
+			if !g.SeqPresent {
+				g.Seq = 0
+			}
+			// an inner packet, so that every byte of the frame belongs to a decoded layer
+			g.Protocol = layers.EthernetTypeIPv4
+			in := &layers.IPv4{Version: 4, TTL: 9, Id: rapid.Uint16().Draw(t, "inid"), SrcIP: genIP(t, 4, "insrc"), DstIP: genIP(t, 4, "indst"), Protocol: layers.IPProtocolUDP}
+			iu := &layers.UDP{SrcPort: layers.UDPPort(genPort(t, true, "insport")), DstPort: layers.UDPPort(genPort(t, true, "indport"))}
+			iu.SetNetworkLayerForChecksum(in)
+			b.Layers = append(b.Layers, in, iu)
+		}
 	}
 	pl := Payload(t, 1400)
 	b.Layers = append(b.Layers, gopacket.Payload(pl))
+	return b.finish()
+}
+
+// ndpFn is set by Stack so that the NDP builder can draw.
+type ndpDraw struct {
+	t *rapid.T
+}
+
+func t2(x uint8) uint8 { return x }
+
+func (b *Built) ndp(typ uint8, ic *layers.ICMPv6) *Built {
+	t := b.t
+	var opts layers.ICMPv6Options
+	n := rapid.IntRange(0, 4).Draw(t, "nndpopts")
+	for i := 0; i < n; i++ {
+		k := rapid.SampledFrom([]layers.ICMPv6Opt{layers.ICMPv6OptSourceAddress, layers.ICMPv6OptTargetAddress, layers.ICMPv6OptMTU}).Draw(t, "ndpoptt")
+		l := 6
+		if rapid.IntRange(0, 3).Draw(t, "ndplong") == 0 {
+			l = 14
+		}
+		opts = append(opts, layers.ICMPv6Option{Type: k, Data: rapid.SliceOfN(rapid.Byte(), l, l).Draw(t, "ndpoptd")})
+	}
+	target := genIP(t, 16, "ndptarget")
+	if typ == 135 {
+		b.Layers = append(b.Layers, &layers.ICMPv6NeighborSolicitation{TargetAddress: target, Options: opts})
+	} else {
+		b.Layers = append(b.Layers, &layers.ICMPv6NeighborAdvertisement{Flags: rapid.SampledFrom([]uint8{0, 0x20, 0x40, 0x80, 0xe0}).Draw(t, "naflags"), TargetAddress: target, Options: opts})
+	}
+	b.Desc = append(b.Desc, "ndp")
+	if len(opts) >= 2 {
+		b.Desc = append(b.Desc, "ndp-options>=2")
+	}
 	return b.finish()
 }
 
